@@ -133,7 +133,7 @@ class C10(Prop):
             if i + 1 < len(idx) and idx[i + 1] and idx[i + 1][0] <= stop:
                 viol.append(V('c10.part_start', tag, 'part after pause %d starts at %d' % (stop, idx[i + 1][0])))
         v2 = oracles.compare_tables(out.tables, ref.tables, full, label='c10.values', keys=oracles.SLACK_KEYS,
-                                    slack=oracles.SOLVER_SLACK, col_atol=col)
+                                    slack=oracles.solver_slack(scn, ref.tables if hasattr(ref, "tables") and ref.tables is not None else ref.results, full), col_atol=col)
         for x in v2:
             x['sig'] = x['sig'] + '.' + tag
         return viol + v2
